@@ -95,6 +95,15 @@ Theorem C05_built_stack_rates_ok : forall b ls b',
   rates_ok b -> Forall layer_valid ls -> build b ls = Some b' -> rates_ok b'.
 Proof. exact build_rates_ok. Qed.
 
+(** end to end: base accepted by a base constructor (int64 arguments), layers
+    accepted by the builder *)
+Theorem C05_built_envelope : forall b ls b' p n rnd,
+  ctor_base b -> Forall layer_valid ls -> build b ls = Some b' ->
+  words rnd -> valid64 p -> (fltb fone p = true \/ is_nan p = true) ->
+  exists d rnd', next_delay p b' n rnd = Some (d, rnd') /\ words rnd' /\
+    (if limit_hit b' n then d = -1 else 0 <= d <= max_int64).
+Proof. exact built_envelope. Qed.
+
 Print Assumptions C05_sat_mul_jitter_ordered.
 Print Assumptions C05_jitter_band.
 Print Assumptions C05_jitter_ctor_rates.
@@ -109,3 +118,4 @@ Print Assumptions C05_stack_envelope.
 Print Assumptions C05_stack_stop_iff.
 Print Assumptions C05_built_stack_wf.
 Print Assumptions C05_built_stack_rates_ok.
+Print Assumptions C05_built_envelope.
